@@ -1,39 +1,71 @@
 import Pandora.Drv.Util
 import Pandora.Spec.C03
 
+/-!
+C03 driver.  Input: `inst=<startup tokens> shared=<0|1> tokens=<n> ammo=<n|-1> discard=<0|1> …` (the other keys only
+steer the harness).  Observation of the real engine:
+`res=ok exact=<tokens of one profile> started=<InstanceStart> finished=… req=… resp=… uar=<0|1> dbl=<0|1> relmin=… relmax=… log=<events>`
+with events `c<i>:<left>` (IsFinished saw Left()), `a<i>` / `e<i>` (Acquire ok / out of ammo), `n<i>` / `x<i>` (Next ok / finished),
+`s<i>:<k>` (Shoot of item k), `d<i>` (discarded sample reported), `r<i>:<k>` (Release of item k); `i` = instance in order
+of first appearance, `k` = acquisition number of the item.
+
+The log is replayed through `Model.C03.step`.  Three model events are not visible to the harness and are inserted where
+the regenerated loop body puts them: `start i` before the first event of a new instance, `reqAdd i` right before
+`shoot i k`, `respAdd i` right before the `rel` of an instance that has shot.
+-/
 namespace Pandora.Drv.C03
 open Pandora.Drv Pandora.Model.C03 Pandora.Spec.C03
 
+def nat2 (r : List Char) : Option (Nat × Nat) :=
+  match (String.ofList r).splitOn ":" with
+  | [i, l] => do pure (← i.toNat?, ← l.toNat?)
+  | _ => none
+
 def parseEv (s : String) : Option Ev :=
   match s.toList with
-  | 'c' :: r => match (String.ofList r).splitOn ":" with
-      | [i, l] => do pure (.chk (← i.toNat?) (← l.toNat?))
-      | _ => none
+  | 'c' :: r => (nat2 r).map fun (i, l) => .chk i l
   | 'a' :: r => (String.ofList r).toNat?.map .acq
   | 'e' :: r => (String.ofList r).toNat?.map .empty
   | 'n' :: r => (String.ofList r).toNat?.map .tokOk
   | 'x' :: r => (String.ofList r).toNat?.map .tokEnd
-  | 's' :: r => (String.ofList r).toNat?.map .shoot
+  | 's' :: r => (nat2 r).map fun (i, k) => .shoot i k
   | 'd' :: r => (String.ofList r).toNat?.map .discard
-  | 'r' :: r => (String.ofList r).toNat?.map .rel
+  | 'r' :: r => (nat2 r).map fun (i, k) => .rel i k
   | _ => none
+
+def evInst : Ev → Nat
+  | .start i | .chk i _ | .acq i | .empty i | .tokOk i | .tokEnd i | .reqAdd i | .shoot i _ | .respAdd i
+  | .discard i | .rel i _ => i
+
+/-- the model events for one observed event (hidden events inserted) -/
+def expand (s : St) (e : Ev) : List Ev :=
+  let pre := if evInst e == s.started then [Ev.start (evInst e)] else []
+  match e with
+  | .shoot i k => pre ++ [.reqAdd i, .shoot i k]
+  | .rel i k => pre ++ (if s.pcs[i]? == some .shot then [.respAdd i] else []) ++ [.rel i k]
+  | e => pre ++ [e]
+
+def runList (c : Cfg) : St → List Ev → Option St
+  | s, [] => some s
+  | s, e :: es => match step c s e with
+    | some s' => runList c s' es
+    | none => none
 
 /-- replay; returns the state or the index and text of the first event that is not enabled -/
 def replay (c : Cfg) : St → List (Ev × String) → Nat → Except String St
   | s, [], _ => .ok s
-  | s, (e, txt) :: es, k => match step c s e with
+  | s, (e, txt) :: es, k => match runList c s (expand s e) with
     | some s' => replay c s' es (k + 1)
     | none => .error s!"rejected@{k}:{txt}"
 
 def handle : Handler := fun input impl =>
   let kv := parseKV input
   let o := parseKV impl
-  let started := (getN? o "started").getD 0
   let ammo : Option Nat := match getI? kv "ammo" with
     | some a => if a < 0 then none else some a.toNat
     | none => none
   let c : Cfg := { perInstance := getS kv "shared" == "0", tokens := (getN? o "exact").getD 0, ammo := ammo,
-                   discardOn := getS kv "discard" == "1", instances := started }
+                   discardOn := getS kv "discard" == "1", instances := (getN? o "cap").getD ((getN? kv "inst").getD 0) }
   let evTxt := splitList (getS o "log")
   match evTxt.mapM (fun t => (parseEv t).map (·, t)) with
   | none => ("-", s!"fail:crash:unparsable observation {impl.take 80}")
@@ -41,16 +73,21 @@ def handle : Handler := fun input impl =>
     if getS o "res" != "ok" then ("-", s!"fail:abnormal-end:{getS o "res"}") else
     let cnt (p : Ev → Bool) := (evs.filter (fun e => p e.1)).length
     let k : Counters := {
-      fired := cnt (fun | .shoot _ => true | _ => false), discarded := cnt (fun | .discard _ => true | _ => false),
-      acquired := cnt (fun | .acq _ => true | _ => false), released := cnt (fun | .rel _ => true | _ => false),
+      started := (getN? o "started").getD 0,
+      fired := cnt (fun | .shoot _ _ => true | _ => false), discarded := cnt (fun | .discard _ => true | _ => false),
+      acquired := cnt (fun | .acq _ => true | _ => false), released := cnt (fun | .rel _ _ => true | _ => false),
       request := (getN? o "req").getD 0, response := (getN? o "resp").getD 0,
-      usedAfterRelease := getS o "uar" != "0", doubleRelease := getS o "dbl" != "0" }
+      usedAfterRelease := getS o "uar" != "0", doubleRelease := getS o "dbl" != "0",
+      maxReleases := (getN? o "relmax").getD 0, minReleases := (getN? o "relmin").getD 1 }
     let v := verdict c k
     match replay c (init c) evs 0 with
     | .error e => (e, v)
     | .ok s =>
       if !s.terminal then ("not-terminal", v)
-      else if s.fired != k.fired || s.discarded != k.discarded || s.request != k.request then ("counter-mismatch", v)
+      else if s.started != k.started then (s!"started-mismatch:model {s.started} metric {k.started}", v)
+      else if s.fired != k.fired || s.discarded != k.discarded || s.request != k.request || s.response != k.response
+        then ("counter-mismatch", v)
+      else if s.badUse then ("bad-use", v)
       else (impl, v)
 
 end Pandora.Drv.C03
